@@ -85,31 +85,47 @@ Proof.
 Qed.
 Print Assumptions C04_noise_diag.
 
-(** Scalar rule AS THE CODE HAS IT ([model^2] summed without the mask): the same statement is false.
-    2 individuals x 1 visit x 2 features, one entry missing, model equal to the data on the observed entries:
-    the RMS residual over observed entries is 0, the rule yields variance 1/12. *)
-Theorem C04_noise_scalar_refuted :
-  exists l : list (option Q * Q * Q),
-    0 < n_observed l /\ rss l / n_observed l == 0 /\ noise_scalar_var false (map cell_of l) == 1 # 12 /\
-    ~ noise_scalar_var false (map cell_of l) == rss l / n_observed l.
-Proof. exact noise_scalar_refuted. Qed.
-Print Assumptions C04_noise_scalar_refuted.
+(** Scalar rule: the same statement over the cells of ALL features.  For any observations, model values and values
+    held under the mask ([junk]; the model value of an unobserved cell): the variance is the residual sum of squares
+    over OBSERVED entries divided by their number; the rule is undefined exactly when nothing is observed, raises
+    exactly when that quantity is below [tol], and otherwise returns it — the stored parameter is its square root,
+    the RMS residual over observed entries.  (Until leaspy commit 3d244df the code summed model^2 over unobserved
+    entries of real visits as well: docs/C04.md, known_findings.jsonl.) *)
+Theorem C04_noise_scalar : forall (tol : Q) (l : list (option Q * Q * Q)),
+  let d := rss l / n_observed l in
+  noise_scalar_var (map cell_of l) == d /\
+  n_obs (map cell_of l) = n_observed l /\
+  (n_observed l == 0 <-> noise_scalar_rule tol (map cell_of l) = Undefined) /\
+  (0 < n_observed l -> 0 <= d) /\
+  (0 < n_observed l -> d < tol -> noise_scalar_rule tol (map cell_of l) = Collapse) /\
+  (0 < n_observed l -> tol <= d ->
+     exists v, noise_scalar_rule tol (map cell_of l) = Ok v /\ v == d /\ std_of (Ok v) = Ok (sqrt (Q2R d))).
+Proof. intros tol l. split; [apply noise_scalar_var_spec|]. split; [apply n_obs_cell_of | apply noise_scalar_rule_spec]. Qed.
+Print Assumptions C04_noise_scalar.
 
-(** The excess is exactly the [model^2] of the unobserved cells over n_obs; with that sum masked the scalar
-    rule is the observed-entry quantity. *)
-Theorem C04_noise_scalar_if_masked :
-  (forall l, noise_scalar_var true (map cell_of l) == rss l / n_observed l) /\
-  (forall cells, noise_scalar_var false cells == noise_scalar_var true cells + leaked cells / n_obs cells).
-Proof. split; [exact noise_scalar_masked_spec | exact noise_scalar_excess]. Qed.
-Print Assumptions C04_noise_scalar_if_masked.
+(** With ANY statistics in force (averaged over iterations or not): what the rule returns is the single masked sum
+    [(y_L2 + sum_observed (-2 s_ym + s_mm)) / n_obs] — the per-feature quantity taken over every feature's cells —
+    and it is at least [tol]. *)
+Theorem C04_noise_scalar_general : forall (tol : Q) (cells : list cell) (v : Q),
+  noise_scalar_rule tol cells = Ok v ->
+  ~ n_obs cells == 0 /\ v = noise_scalar_var cells /\ tol <= v /\ noise_scalar_var cells = noise_ft_var cells.
+Proof.
+  intros tol cells v H. destruct (noise_scalar_rule_ok tol cells v H) as [H1 [H2 H3]].
+  split; [exact H1|]. split; [exact H2|]. split; [exact H3 | apply noise_scalar_is_ft_var].
+Qed.
+Print Assumptions C04_noise_scalar_general.
 
-(** What does hold of the code's scalar rule: it is right whenever every unobserved cell has model = 0, i.e. the
-    only unobserved cells are padding (no real visit has a missing entry). *)
-Theorem C04_noise_scalar_partial : forall l : list (option Q * Q * Q),
-  (forall y m j, In (y, m, j) l -> y = None -> m == 0) ->
-  noise_scalar_var false (map cell_of l) == rss l / n_observed l.
-Proof. exact noise_scalar_partial. Qed.
-Print Assumptions C04_noise_scalar_partial.
+(** Non-vacuity: 2 individuals x 1 visit x 2 features, one entry missing in a real visit (model = 1/2 there): the rule
+    returns the observed-entry quantity 1/48 whatever the product holds under the mask (0 or 7), raises for a larger
+    threshold, is undefined when nothing is observed. *)
+Theorem C04_noise_scalar_example :
+  n_observed (scalar_example 0) == 3 /\ rss (scalar_example 0) / n_observed (scalar_example 0) == 1 # 48 /\
+  noise_scalar_rule (1 # 100000) (map cell_of (scalar_example 0)) = noise_scalar_rule (1 # 100000) (map cell_of (scalar_example 7)) /\
+  (exists v, noise_scalar_rule (1 # 100000) (map cell_of (scalar_example 7)) = Ok v /\ v == 1 # 48) /\
+  noise_scalar_rule (1 # 10) (map cell_of (scalar_example 7)) = Collapse /\
+  noise_scalar_rule (1 # 100000) (map cell_of [(None, 1#2, 7)]) = Undefined.
+Proof. exact noise_scalar_example. Qed.
+Print Assumptions C04_noise_scalar_example.
 
 (** ** Mixture.  Responsibilities: any matrix with non-negative rows summing to one. *)
 Theorem C04_probs_sum_one : forall (nc : nat) (Rm : list (list Q)),
@@ -165,13 +181,13 @@ Theorem C04_tie_burn_in_correction : gen_burn_in_correction = 1%Z.
 Proof. exact tie_burn_in_correction. Qed.
 Print Assumptions C04_tie_burn_in_correction.
 
-Theorem C04_tie_noise_scalar : forall (s2_masked : bool) (cells : list cell),
+Theorem C04_tie_noise_scalar : forall cells : list cell,
   ~ n_obs cells == 0 ->
-  gen_scalar_s1_masked = true /\
+  gen_scalar_sum_masks = [true] /\
   gen_noise_scalar_var (Q2R (y_L2 cells)) (Q2R (sumQ (map (masked c_ym) cells)))
-                       (Q2R (sumQ (map (if s2_masked then masked c_mm else c_mm) cells))) (Q2R (n_obs cells))
-  = Q2R (noise_scalar_var s2_masked cells).
-Proof. intros b cells H. split; [exact tie_scalar_s1_masked | now apply tie_noise_scalar_var]. Qed.
+                       (Q2R (sumQ (map (masked c_mm) cells))) (Q2R (n_obs cells))
+  = Q2R (noise_scalar_var cells).
+Proof. intros cells H. split; [exact tie_scalar_sum_masks | now apply tie_noise_scalar_var]. Qed.
 Print Assumptions C04_tie_noise_scalar.
 
 Theorem C04_tie_noise_diag : forall cells : list cell,
